@@ -4,6 +4,9 @@ Requests
   (c01 lines STYLE (LINE...))       program of the Lean-covered class as token lines (same wire form as C02)
   (c01 fir STYLE PROG (INPUTS...))  a fir-generated program with input sets for its main unit
   (c01 src "text" (INPUTS...))      hand-written source (witnesses); units must be exportable to FIR
+  (c01 firlay STYLE PROG (INPUTS...) MODE SEED)  the FIR program written by `emit_layout(PROG, SEED)`: CASE blocks in random order with
+                                    CASE DEFAULT first / in the middle / last, value runs as ranges, ELSE IF chains or ELSE + nested IF,
+                                    inline IF, declarations and units in random (dependency-respecting) order, keyword case, ENDDO/ENDIF
 Response (correspondence, `lines` only): (ok PROG1) with PROG1 = fir.export_unit(parse(fgen(parse(src)))) — on the Lean side the
 denotation of re-reading the regenerated lines with the reference parser; `(error parse)` / `(error reparse)`; else `(skip)`.
 
@@ -94,6 +97,179 @@ def c01_flags(prog):
     return fl
 
 
+# ---------------------------------------------------------------------------------------------------------------
+# source-level ordering freedoms: the same FIR program written in different (equally legal) layouts
+
+def _case_vals_text(vals, rng, ranges=True):
+    """value list of a CASE; runs of consecutive values may be written as ranges"""
+    vals = [int(str(v)) for v in vals]
+    out, i = [], 0
+    while i < len(vals):
+        j = i
+        while j + 1 < len(vals) and vals[j + 1] == vals[j] + 1:
+            j += 1
+        if ranges and j > i and rng.random() < 0.7:
+            out.append(f'{vals[i]}:{vals[j]}')
+            i = j + 1
+        else:
+            out.append(str(vals[i]))
+            i += 1
+    return ', '.join(out)
+
+
+def _names_in(e, acc):
+    h = fir._h(e)
+    if h == 'v':
+        acc.add(str(e[1]))
+    elif h in ('idx', 'call'):
+        if h == 'idx':
+            acc.add(str(e[1]))
+        for c in e[2:]:
+            _names_in(c, acc)
+    elif h in ('neg', 'not'):
+        _names_in(e[1], acc)
+    elif h == 'bin':
+        _names_in(e[2], acc); _names_in(e[3], acc)
+    return acc
+
+
+def _shuffle_decls(decls, rng):
+    """a random order of the declarations in which every name is declared before it is used in a bound / initial value"""
+    deps = {}
+    for d in decls:
+        name, _ty, _it, dims, pm = fir.decl_fields(d)
+        acc = set()
+        for lo, hi in dims:
+            _names_in(lo, acc); _names_in(hi, acc)
+        if pm is not None:
+            _names_in(pm, acc)
+        deps[name] = acc
+    left, out, done = list(decls), [], set()
+    while left:
+        ready = [d for d in left if deps[str(d[1])] & {str(x[1]) for x in left if x is not d} == set()]
+        if not ready:
+            return list(decls)
+        d = rng.choice(ready)
+        left.remove(d); out.append(d); done.add(str(d[1]))
+    return out
+
+
+def emit_layout(prog, seed, lean=False):
+    """(source text, the same program with cases / declarations / units in the order in which they were written).
+    ``lean``: only the freedoms the Lean reference parser models (order of CASE blocks, position of CASE DEFAULT, order of CASE
+    values, of declarations and of units, ENDDO/ENDIF) - no value ranges, inline IF, ELSE + nested IF, upper case"""
+    rng = random.Random(seed)
+    upper = rng.random() < 0.25 and not lean
+    end_glued = rng.random() < 0.3
+
+    def kw(s):
+        return s.upper() if upper else s
+
+    def end(s):
+        return kw('end' + s) if (end_glued and s in ('do', 'if')) else kw('end ' + s)
+
+    def ex(e):
+        t = fir.emit_ex(e)
+        return t.upper() if upper else t
+
+    def stmts(ss, ind, out):
+        p = '  ' * ind
+        res = []
+        for s in ss:
+            h = fir._h(s)
+            if h == 'assign':
+                out.append(f'{p}{ex(s[1])} = {ex(s[2])}'); res.append(s)
+            elif h == 'do':
+                step = '' if fir._is_none(s[4]) else ', ' + ex(s[4])
+                out.append(f'{p}{kw("do")} {ex(fir.V(str(s[1])))} = {ex(s[2])}, {ex(s[3])}{step}')
+                body = stmts(s[5], ind + 1, out)
+                out.append(p + end('do')); res.append(s[:5] + [body])
+            elif h == 'while':
+                out.append(f'{p}{kw("do while")} ({ex(s[1])})')
+                body = stmts(s[2], ind + 1, out)
+                out.append(p + end('do')); res.append(s[:2] + [body])
+            elif h == 'if':
+                res.append(emit_if(s, ind, out, kw('if')))
+            elif h == 'select':
+                out.append(f'{p}{kw("select case")} ({ex(s[1])})')
+                blocks = [('case', c) for c in s[2]]
+                rng.shuffle(blocks)                       # the order of CASE blocks is free (selectors are disjoint)
+                if s[3]:
+                    blocks.insert(rng.randrange(len(blocks) + 1), ('default', s[3]))
+                cases, dflt = [], []
+                for kind, c in blocks:
+                    if kind == 'default':
+                        out.append(f'{p}{kw("case default")}')
+                        dflt = stmts(c, ind + 1, out)
+                    else:
+                        vals = list(c[0])
+                        if rng.random() < 0.5:             # the order of the values of one CASE is free as well
+                            vals = sorted(vals, key=lambda v: int(str(v)))
+                        out.append(f'{p}{kw("case")} ({_case_vals_text(vals, rng, ranges=not lean)})')
+                        cases.append([vals, stmts(c[1], ind + 1, out)])
+                out.append(p + kw('end select')); res.append([s[0], s[1], cases, dflt])
+            elif h == 'assoc':
+                out.append(f'{p}{kw("associate")} (' + ', '.join(f'{ex(fir.V(str(b[0])))} => {ex(b[1])}' for b in s[1]) + ')')
+                body = stmts(s[2], ind + 1, out)
+                out.append(p + kw('end associate')); res.append(s[:2] + [body])
+            elif h == 'callsub':
+                out.append(f'{p}{kw("call")} {ex(fir.V(str(s[1])))}(' + ', '.join(ex(a) for a in s[2:]) + ')'); res.append(s)
+            elif h == 'print':
+                out.append(f'{p}{kw("print")} *' + ''.join(', ' + ex(a) for a in s[1:])); res.append(s)
+            elif h in ('exit', 'cycle'):
+                out.append(p + kw(h)); res.append(s)
+            elif h == 'nop':
+                out.append(f'{p}!$' + str(s[2]) if str(s[1]) == 'pragma' else f'{p}! ' + str(s[2])); res.append(s)
+            else:
+                raise ValueError('malformed statement ' + dumps(s))
+        return res
+
+    def simple(s):
+        return fir._h(s) in ('assign', 'callsub', 'exit', 'cycle', 'print')
+
+    def emit_if(s, ind, out, head):
+        p = '  ' * ind
+        els = s[3]
+        if not lean and head == kw('if') and not els and len(s[2]) == 1 and simple(s[2][0]) and rng.random() < 0.3:   # inline IF
+            tmp = []
+            body = stmts(s[2], 0, tmp)
+            out.append(f'{p}{kw("if")} ({ex(s[1])}) {tmp[0].strip()}')
+            return [s[0], s[1], body, []]
+        out.append(f'{p}{head} ({ex(s[1])}) {kw("then")}')
+        thn = stmts(s[2], ind + 1, out)
+        if len(els) == 1 and fir._h(els[0]) == 'if':
+            if lean or rng.random() < 0.5:                 # ELSE IF chain ...
+                inner = emit_if(els[0], ind, out, kw('else if'))
+                return [s[0], s[1], thn, [inner]]
+            out.append(p + kw('else'))                     # ... or ELSE + nested IF (the exporter maps both to the same FIR)
+            inner = emit_if(els[0], ind + 1, out, kw('if'))
+            out.append(p + end('if'))
+            return [s[0], s[1], thn, [inner]]
+        if els:
+            out.append(p + kw('else'))
+            e2 = stmts(els, ind + 1, out)
+        else:
+            e2 = []
+        out.append(p + end('if'))
+        return [s[0], s[1], thn, e2]
+
+    units = list(prog[2:])
+    main = str(prog[1])
+    rng.shuffle(units)
+    lines, units2 = [], []
+    for u in units:
+        name, args, decls, body = str(u[1]), [str(a) for a in u[2]], u[3], u[4]
+        d2 = _shuffle_decls(decls, rng)
+        lines += [f'{kw("subroutine")} {ex(fir.V(name))}(' + ', '.join(ex(fir.V(a)) for a in args) + ')', '  ' + kw('implicit none')]
+        for d in d2:
+            t = fir._emit_decl(d)
+            lines.append('  ' + (t.upper() if upper else t))
+        b2 = stmts(body, 1, lines)
+        lines += [f'{kw("end subroutine")} {ex(fir.V(name))}', '']
+        units2.append([u[0], u[1], u[2], d2, b2])
+    return '\n'.join(lines), [prog[0], prog[1]] + units2
+
+
 def regenerate(src, style):
     """(sf0, t1) or raises"""
     sf0 = parse(src)
@@ -134,7 +310,7 @@ class C01(Prop):
         """only FIR programs are shrunk (malformed FIR makes the oracle raise = not a failure); token lines and source text are
         replayed as they are, because every text the frontend rejects would count as 'still failing'"""
         from ..core import _subterms_replace
-        if str(req[1]) == 'fir':
+        if str(req[1]) in ('fir', 'firlay'):
             for i, v in enumerate(_subterms_replace(req[3])):
                 yield req[:3] + [v] + req[4:]
 
@@ -144,7 +320,7 @@ class C01(Prop):
         n_fir = {'quick': 10, 'thorough': 100, 'search': 60}[tier]
         for k in range(n_lines):
             g = ScalarGen(rng, hazards=False)
-            src = fir.emit_fortran(g.program(), wrap_program=False)
+            src = fir.emit_fortran(g.program(), wrap_program=False) if k % 2 == 0 else emit_layout(g.program(), rng.randrange(10 ** 6), lean=True)[0]
             yield Case([A('c01'), A('lines'), A(STYLES[k % 2]), lex_text(src)], stream='lines')
         cfgs = [None, None, {'assoc_selectors': 'full', 'weights': {'assoc': 16}, 'max_stmts': 16},
                 {'empty_case_bodies': True, 'weights': {'select': 25}, 'max_stmts': 12},
@@ -154,6 +330,15 @@ class C01(Prop):
             p = fir.gen_program(rng, cfgs[k % len(cfgs)])
             ins = fir.gen_inputs(rng, p, 3) + fir.gen_inputs(rng, p, 1, extreme=True)
             yield Case([A('c01'), A('fir'), A(STYLES[k % 2]), p, ins, A('gf' if tier == 'thorough' else 'interp')], stream='fir')
+        n_lay = {'quick': 8, 'thorough': 120, 'search': 60}[tier]
+        lay_cfgs = [{'weights': {'select': 30, 'if': 16}, 'max_stmts': 14, 'n_callees': (0, 1)},
+                    {'weights': {'select': 18, 'if': 22, 'do': 8}, 'max_stmts': 18, 'max_depth': 4},
+                    {'weights': {'select': 12, 'call': 14}, 'n_callees': (1, 2), 'max_stmts': 14}]
+        for k in range(n_lay):
+            p = fir.gen_program(rng, lay_cfgs[k % len(lay_cfgs)])
+            ins = fir.gen_inputs(rng, p, 3) + fir.gen_inputs(rng, p, 1, extreme=True)
+            yield Case([A('c01'), A('firlay'), A(STYLES[k % 2]), p, ins, A('gf' if tier == 'thorough' else 'interp'),
+                        rng.randrange(10 ** 6)], stream='layout')
         outside = list(OUTSIDE_FIR)
         if tier == 'quick':           # gfortran is slow on a loaded machine: three of them per quick run (the named-cycle witness is
             rng.shuffle(outside)      # replayed from known_findings.json on every run anyway)
@@ -196,9 +381,13 @@ class C01(Prop):
             return self.oracle_outside(str(req[2]), str(req[3]) if len(req) > 3 else '')
         if kind == 'src':
             return self.oracle_fir(None, str(req[2]), 'fortran', list(req[3]), thorough=True)
+        if kind == 'firlay':
+            text, prog_l = emit_layout(req[3], int(str(req[6])))
+            return self.oracle_fir(fir.canon(prog_l), text, str(req[2]), list(req[4]), thorough=(str(req[5]) == 'gf'),
+                                   main=str(req[3][1]))
         return self.oracle_fir(req[3], None, str(req[2]), list(req[4]), thorough=(len(req) > 5 and str(req[5]) == 'gf'))
 
-    def oracle_fir(self, prog, src, style, inputs, thorough):
+    def oracle_fir(self, prog, src, style, inputs, thorough, main=None):
         out = []
         flags = c01_flags(prog) if prog is not None else (c02.text_flags(src) & set(CLASSES))
         if prog is not None and (len(prog) < 3 or not all(fir._h(u) == 'unit' and len(u) == 5 for u in prog[2:])):
@@ -213,7 +402,7 @@ class C01(Prop):
                 raise ValueError('malformed program')
             return [Failure(f'the frontend rejects valid source ({type(e).__name__}: {str(e)[:80]})', cls)]
         try:
-            e0 = fir.export_unit(sf0)
+            e0 = fir.export_unit(sf0, main=main)
         except fir.Unsupported as e:
             return [Failure(f'IR of a FIR program is not exportable: {e.kind}', 'select-empty-case' if 'select-empty-case' in flags else None)]
         swallowed = 'if-body-dropped-on-swallowed-exception' if 'if-body-dropped-on-swallowed-exception' in flags else None
@@ -221,7 +410,7 @@ class C01(Prop):
             out.append(Failure('the frontend did not read what the harness wrote: export_unit(parse(emit(p))) != normalize(p)', swallowed))
         try:
             sf1 = parse(t1)
-            e1 = fir.export_unit(sf1)
+            e1 = fir.export_unit(sf1, main=main)
         except Exception as e:  # noqa: BLE001
             cls = 'double-not-unparsable' if ('double-not-unparsable' in flags and re.search(r'\.not\.\s*\.not\.', t1, re.I)) else None
             return out + [Failure(f'regenerated source is rejected ({type(e).__name__}: {str(e)[:80]})', cls)]
